@@ -171,11 +171,20 @@ def synthetic(case):
         stream += _varint(len(hb)) + hb + b"".join(msgs)
     data = b""
     s2 = stream
+    if case.get("cuts"):
+        # the same stream cut at arbitrary boundaries, including repeated ones (chunks that decompress to nothing)
+        n = len(stream)
+        bounds = {"empty-lead": [0, 0, n], "empty-trail": [0, n, n], "empty-mid": [0, n // 2, n // 2, n], "empty-seg": [0, len(_varint(len(hb)) + hb), len(_varint(len(hb)) + hb), n],
+                  "many": sorted([0, n] + [rnd.randrange(n + 1) for _ in range(6)] + [n // 3, n // 3])}[case["cuts"]]
+        for lo, hi in zip(bounds, bounds[1:]):
+            p = snappy.compress(stream[lo:hi])
+            data += b"\0" + struct.pack("<I", len(p))[:3] + p
+        s2 = b""
     while s2:
         p = snappy.compress(s2[:65536])
         data += b"\0" + struct.pack("<I", len(p))[:3] + p
         s2 = s2[65536:]
-    err, k = check_member(f"synthetic(size={size},segments={nseg},messages={case.get('messages', 1)})", data)
+    err, k = check_member(f"synthetic(size={size},segments={nseg},messages={case.get('messages', 1)},cuts={case.get('cuts')})", data)
     if err:
         return {"detail": err}
     return {"ok": True, "count": 1} if k else {"detail": f"synthetic archive of size {size} was not recognised as IWA"}
@@ -287,6 +296,9 @@ def main():
         cases.append({"kind": "synthetic", "size": size, "seed": a.seed + 1, "random": False})
     cases.append({"kind": "synthetic", "size": 300, "seed": a.seed, "segments": 40})
     cases.append({"kind": "synthetic", "size": 5000, "seed": a.seed, "segments": 3, "messages": 4})
+    for cuts in ("empty-lead", "empty-trail", "empty-mid", "empty-seg", "many"):
+        cases.append({"kind": "synthetic", "size": 700, "seed": a.seed + 5, "segments": 6, "cuts": cuts})
+        cases.append({"kind": "synthetic", "size": 90000, "seed": a.seed + 6, "segments": 2, "cuts": cuts})
     for sz in (200, 30000, 60000):
         cases.append({"kind": "synthetic", "size": sz, "seed": a.seed + sz, "snappy_block": True})
     for i in range(12):
